@@ -92,8 +92,9 @@ Lemma enter_local : forall c a l g g', cm_local c = true ->
 Proof.
   intros c a l g g' H. destruct c; try discriminate; cbn [cm_enter]; unfold lift_enter; cbn [fst snd];
     try match goal with |- context [match ?f l with _ => _ end] => destruct (f l) as [[l1 sv]|]; cbn [fst snd]; auto end.
-  destruct (nth_error flag_scopes i) as [[k init]|]; cbn [fst snd]; auto.
-  destruct (thread_local_value_scope_enter k a init l) as [[l1 sv]|]; cbn [fst snd]; auto.
+  - destruct (nth_error flag_scopes i) as [[k init]|]; cbn [fst snd]; auto.
+    destruct (thread_local_value_scope_enter k a init l) as [[l1 sv]|]; cbn [fst snd]; auto.
+  - destruct a; auto.
 Qed.
 
 Lemma exit_local : forall c a sv l g, cm_local c = true ->
@@ -299,6 +300,10 @@ Proof.
   - rewrite dyn_enter_thread in E.
     destruct (is_none (tl_get g_dynamic_evaluate v_none g)); try discriminate.
     apply some_pair_inj in E. destruct E as [<- _]. reflexivity.
+  - unfold dynguard_enter in E. cbn [fst snd] in E.
+    repeat match type of E with context [if ?b then _ else _] => destruct b end; try discriminate;
+      apply some_pair_inj in E; destruct E as [<- _]; reflexivity.
+  - destruct a; try discriminate. apply some_pair_inj in E. destruct E as [<- _]. reflexivity.
 Qed.
 
 Lemma exit_keeps_glob : forall c a sv l g, cm_global c = false -> snd (cm_exit c a sv (l, g)) = g.
